@@ -102,8 +102,8 @@ inductive Act where
   | respond
   | failReq (k : ReqFail)
   | retry       -- an attempt failed with a retryable error and its backoff is over: `api.request` re-sends it.
-                -- Nothing stops this loop on a pause: `fetching.list_objs` has no stopper, and the stopper
-                -- callback of `api.stream` fails on its own assert (finding C19-F2).
+                -- For a listing nothing stops this loop on a pause: `fetching.list_objs` has no stopper
+                -- (finding C19-F2). A watch request is cancelled when the pause is noticed (`notice`).
   -- lines and endings of the open watch response
   | deliver                 -- the next stored version after what was sent so far
   | bookmark (b : Nat)
@@ -178,7 +178,10 @@ def step (w : World) : Act → World
   | .notice =>
       if w.paused then
         match w.phase with
-        | .listing | .connecting => { w with pauseSeen := true }
+        | .listing => { w with pauseSeen := true }               -- `fetching.list_objs` has no stopper: the listing goes on
+        | .connecting => toBackoff { w with pauseSeen := true }  -- the pending watch request (also one sleeping between
+                                                                 -- its retries) is cancelled by the stopper's callback,
+                                                                 -- swallowed by `api.stream`; the loop ends (kopf d8da165)
         | .streaming => toBackoff { w with pauseSeen := true }   -- response closed by the callback; loop ends
         | _ => w
       else w
@@ -292,6 +295,14 @@ def Out.isAttempt : Out → Bool
   | _ => false
 
 def attemptCount (os : List Out) : Nat := (os.filter Out.isAttempt).length
+
+/-- Attempts of watch requests only. -/
+def Out.isWatchAttempt : Out → Bool
+  | .reqWatch _ => true
+  | .retryWatch _ => true
+  | _ => false
+
+def watchAttemptCount (os : List Out) : Nat := (os.filter Out.isWatchAttempt).length
 
 /-- The oldest request among the observations. -/
 def oldestReq : List Out → Option Out
